@@ -138,20 +138,43 @@ def _split_items(toks):
 # of one of them to a name that occurs nowhere else is alpha-equivalence
 LOCALS = {'new_machine', 'old_machine', 'err', 'state_name', 'new_state', 'current', 'callback_name', 'state', 'data',
           'm', 'event', 'payload'}
-_IDENT_RE = None
+import re as _re
+_IDENT_RE = _re.compile(r'^[A-Za-z_][A-Za-z0-9_]*$')
+
+_NOT_BEFORE = {'.', '::', 'fn', 'struct', 'enum', 'mod', 'impl', 'trait', 'type', 'const', 'static', 'use', 'for', "'", 'dyn', 'as'}
+_NOT_AFTER = {'(', '::', '!', '<', '{'}
+_RESERVED = {'self', 'Self', 'super', 'crate', 'mut', 'ref', 'let', 'match', 'if', 'else', 'return', 'move', 'async', 'await',
+             'pub', 'where', 'in', 'true', 'false', 'loop', 'while', 'break', 'continue', 'unsafe', 'core', 'ctx', '_state'}
+
+def _only_local_roles(toks, name):
+    """is `name` used, in this item, only where a local variable can stand: a lower-case identifier never
+    preceded by `.`, `::`, an item keyword, and never followed by `(`, `::`, `!`, `<`, `{` (so it is not a field, a
+    method, a path segment, a function, a macro, a type or a struct literal)"""
+    if not name or not (name[0].islower() or name[0] == '_') or name in _RESERVED or not _IDENT_RE.match(name):
+        return False
+    seen = False
+    for i, t in enumerate(toks):
+        if t != name:
+            continue
+        seen = True
+        prev = toks[i - 1] if i > 0 else ''
+        nxt = toks[i + 1] if i + 1 < len(toks) else ''
+        if prev in _NOT_BEFORE or nxt in _NOT_AFTER:
+            return False
+        if prev == ':' and i >= 2 and toks[i - 2] != ':':
+            # `x : name` — a type or a value in a struct literal; a value is fine, a type is not (types are
+            # upper-case in generated code; lower-case primitive types are not renamed by anyone)
+            pass
+    return seen
 
 def _local_rename_only(mt, it, user_words=()):
-    import re
-    global _IDENT_RE
-    if _IDENT_RE is None:
-        _IDENT_RE = re.compile(r'^[A-Za-z_][A-Za-z0-9_]*$')
     if len(mt) != len(it):
         return False
     fwd = {}
     for a, b in zip(mt, it):
         if a == b and a not in fwd:
             continue
-        if a not in LOCALS or a in user_words or not _IDENT_RE.match(b):
+        if a in user_words or not _IDENT_RE.match(b) or not (a in LOCALS or _only_local_roles(mt, a)):
             return False
         if fwd.setdefault(a, b) != b:
             return False
